@@ -49,7 +49,7 @@ def job_seq(item):
                 else: boxed_f = Ptr(Cell(mkfn(fid)), 'box')
                 ex.call('Runtime::register_function', [Ptr(rt), Ptr(Cell(rstr(op[1]))), boxed_f])
         ex.u_ops = ops
-        cname = FJ.choose_from(ex, 'callee', list(names) + (['values'] if 'abs' in names else [])); args = FJ.choose_from(ex, 'args', ARGSETS)
+        cname = FJ.choose_from(ex, 'callee', list(names) + (['values'] if 'abs' in names and len(names) > 2 else [])); args = FJ.choose_from(ex, 'args', ARGSETS)
         pre = FJ.choose_from(ex, 'site', sites)
         ex.u_call = (cname, args, pre)
         text = pre[0] + f'{cname}(' + ', '.join(args) + ')'
